@@ -92,6 +92,8 @@ void sim_ledger_dump(int max);
 
 /* ---- context ownership monitor (M-owner) is always on; query: */
 uint64_t sim_ctx_switches(void);
+/* forget every context (call after ABT_finalize when the runtime is initialised again) */
+void sim_ctx_reset(void);
 
 /* ---- event hook for white-box layers: workload may register a callback */
 typedef void (*sim_event_cb)(int kind, const void *obj, const void *who);
